@@ -44,6 +44,10 @@ type Thread struct {
 	exited  chan struct{}
 	// Daemon threads do not keep an execution alive and are not reported as leaked.
 	Daemon bool
+	lastRun  int // scheduler step at which the thread last ran (fairness)
+	sameOp   int // consecutive identical operations (spin detection)
+	lastKind string
+	lastObj  uintptr
 	// Flags are thread attributes inherited by spawned threads (used to give the two ends of a
 	// transfer different "process-wide" settings inside one process).
 	Flags map[string]bool
@@ -92,9 +96,6 @@ type Sched struct {
 	settleClock   int64
 	settleExtra   int
 	consec        int
-	sameOp        int
-	lastKind      string
-	lastObj       uintptr
 	lastPicked    *Thread
 	Stall         time.Duration // virtual time that passed through "clock" deviations (all threads stalled)
 	Spinning      bool // WaitSettled was released by its step budget, not by quiescence
@@ -414,16 +415,46 @@ func (s *Sched) pick(self *Thread) *Thread {
 		// loop) is moved behind them after fairLimit consecutive steps; deterministic, so replay holds
 		if self != nil && en[0] == self && s.consec >= fairLimit {
 			s.consec = 0
-			if s.sameOp >= fairLimit && s.pendingTimers() {
-				// the same operation over and over (a spin loop): time passes meanwhile, let the
-				// earliest timer fire
-				s.sameOp = 0
-				s.advanceClock()
-				continue
+			allSpin := true
+			for _, t := range en {
+				if t.sameOp < fairLimit {
+					allSpin = false
+					break
+				}
+			}
+			if allSpin {
+				// every runnable thread repeats the same operation over and over (spin loops): time
+				// passes meanwhile, let the earliest timer fire; with no timer left nothing else can
+				// ever happen, which is as quiet as this system gets
+				for _, t := range en {
+					t.sameOp = 0
+				}
+				if s.pendingTimers() {
+					s.advanceClock()
+					continue
+				}
+				if w := s.quiesceWaiter; w != nil && !s.quiescent {
+					s.quiescent = true
+					s.Spinning = true
+					s.Steps++
+					return w
+				}
 			}
 			if len(en) > 1 {
+				// others are runnable: the one that has waited longest goes first, self last
 				copy(en, en[1:])
 				en[len(en)-1] = self
+				best := 0
+				for i := 1; i < len(en)-1; i++ {
+					if en[i].lastRun < en[best].lastRun {
+						best = i
+					}
+				}
+				if best != 0 {
+					t := en[best]
+					copy(en[1:best+1], en[0:best])
+					en[0] = t
+				}
 			}
 		}
 		n := len(en)
@@ -443,16 +474,17 @@ func (s *Sched) pick(self *Thread) *Thread {
 		t := en[c]
 		if t == s.lastPicked {
 			s.consec++
-			if t.pending.kind == s.lastKind && t.pending.obj == s.lastObj {
-				s.sameOp++
-			} else {
-				s.sameOp = 0
-			}
 		} else {
-			s.consec, s.sameOp = 0, 0
+			s.consec = 0
 			s.lastPicked = t
 		}
-		s.lastKind, s.lastObj = t.pending.kind, t.pending.obj
+		if t.pending.kind == t.lastKind && t.pending.obj == t.lastObj {
+			t.sameOp++
+		} else {
+			t.sameOp = 0
+		}
+		t.lastKind, t.lastObj = t.pending.kind, t.pending.obj
+		t.lastRun = s.Steps
 		s.Steps++
 		if !s.cfg.NoRecord {
 			s.fingerprint(t)
